@@ -38,6 +38,13 @@ pub fn addr_str(a: &SocketAddr) -> String {
     }
 }
 
+/// an address inside a message body: what a decoder produces never carries a scope
+pub fn parse_addr_plain(s: &str) -> Option<SocketAddr> {
+    let a = parse_addr(s)?;
+    Some(SocketAddr::new(a.ip(), a.port()))
+}
+
+/// an address of the line protocol as a socket would report it (link-local ones with their scope)
 pub fn parse_addr(s: &str) -> Option<SocketAddr> {
     let mut it = s.split(':');
     let fam = it.next()?;
